@@ -90,6 +90,10 @@ def attribute(unit, failure):
         props.update(item_props(it))
         if re.match(r'^(.*)::(loop\d+|hint)', label) and label.startswith(owner + '::'):
             name = label
+            if re.search(r'::loop\d+:inv:', label):
+                # panic freedom of a loop body is proved UNDER its invariants: an invariant that held on the unchanged tree and
+                # no longer does leaves the arithmetic / indexing inside the loop without its proof
+                props.add('C16')
         elif label:
             name = '%s::body_safety[%s]' % (owner, label)
         else:
@@ -136,7 +140,7 @@ def scan_assumptions(text):
 
 
 REPLAY_BIN = os.path.join(WORK, 'replay-target', 'debug', 'cachelito-replay')
-UNIT_FLAVOUR = {'global_cache': 'global', 'thread_local_cache': 'thread', 'async_cache': 'async', 'scores': 'global', 'utils': 'global'}
+UNIT_FLAVOUR = {'global_cache': ['global'], 'thread_local_cache': ['thread'], 'async_cache': ['async'], 'scores': ['global', 'thread'], 'utils': ['global', 'thread']}
 DYNAMIC_UNITS = ('registry', 'scores', 'utils', 'global_cache', 'thread_local_cache', 'async_cache', 'wrappers_global', 'wrappers_thread', 'wrappers_async', 'wrappers_async_await', 'wrappers_global_await', 'keys')
 
 
@@ -152,7 +156,7 @@ def witness_search(prop, unit_names, tier, seed, only_prop=True):
     ok, err = build_replay()
     if not ok:
         return dict(error='replay crate does not build against the current /repo tree: ' + err)
-    flavours = sorted(set(UNIT_FLAVOUR[u] for u in unit_names if u in UNIT_FLAVOUR))
+    flavours = sorted(set(fl for u in unit_names if u in UNIT_FLAVOUR for fl in UNIT_FLAVOUR[u]))
     iters = 200 if tier == 'quick' else 3000
     stats = []
     if any(u.startswith('wrappers') or u in ('keys', 'registry') for u in unit_names):
